@@ -40,6 +40,7 @@ func init() {
 			"exhaustive part: for G generated (package, R) pairs with |U| <= N (quick G=2,N=10; thorough G=6,N=15) EVERY subset S of U is restored into a fresh directory (a quarter of them with truncated '<file>.<8 letters>.tmp' siblings of missing files added) and R is run again (1..4 workers, PRNG completion order); " +
 			"sampled part: PRNG subsets of larger universes, a shifted request R', and real interruption states (request cancelled after the k-th data message, then re-run). Monitors per run: request completes; stream == sequential reference (C01/C04 clauses); every file left behind decodes to the reference content (cache auditor); no '.tmp' name is ever listed as a snapshot. " +
 			"concurrent part (mode race; quick 10, thorough 40 cases): 2..3 production requests run CONCURRENTLY on one state directory inside the -race binary, twice; completed requests must stream the reference, every file left behind must decode to the reference content, and the race detector watches the squasher's asynchronous snapshot writes against the next merge. " +
+			"live part (last plain cases: quick 4, thorough 200): a production request streaming ~130 blocks + 4 segments of a live chain beyond its hand-off while the tier1's live back-filler has tier2 (real gRPC) compute the segments that became final in the background: same stream and audit monitors on the files those jobs leave. " +
 			"non-trivial = subset that is neither empty nor full and for which at least one tier2 job ran; distinct by (graph, subset bitmask)",
 		Assumptions: []string{
 			"each cache file is a pure function of (module hash, block range), checked by the cache auditor against REF-LINEAR",
@@ -55,7 +56,7 @@ func init() {
 				}
 				return 10
 			}
-			return d.graphs*((1<<d.maxN)/c07Chunk) + d.sampled
+			return d.graphs*((1<<d.maxN)/c07Chunk) + d.sampled + c07LiveCases(tier)
 		},
 		Modes: func(tier string) []string {
 			return []string{"plain", "race"}
@@ -202,12 +203,24 @@ func restore(dir, tag string, files map[string][]byte, chosen map[string]bool) {
 	}
 }
 
+func c07LiveCases(tier string) int {
+	if tier == "thorough" {
+		return 200
+	}
+	return 4
+}
+
 func runC07(c *fw.Case) {
 	if c.Mode == "race" {
 		runC07Race(c)
 		return
 	}
 	d := c07Domain(c.Tier)
+	if c.Index >= d.graphs*((1<<d.maxN)/c07Chunk)+d.sampled {
+		// files left behind by the live back-filler's background jobs while a request streams the live part of the chain
+		runLiveTail(c, "C07")
+		return
+	}
 	chunks := (1 << d.maxN) / c07Chunk
 	exhaustive := c.Index < d.graphs*chunks && c.Mode != "race"
 	var gi, chunk int
